@@ -455,3 +455,96 @@ Fixpoint handle_run (k : nat) (h : heap) (a : nat) : option (list (option E) * h
             end
   end.
 End Shared.
+
+(* ================================================================== extensions *)
+(* ---- lazy_zip with a function: ZippedStream(.., Some(func), ..) applies func to the heads ---- *)
+Section ZipWith.
+Context {St E F : Type}.
+Variable step : St -> option E * St.
+Variable g : list E -> F.
+Definition zipf_step (a : @adapted (list St)) : option F * @adapted (list St) :=
+  let '(o, a') := zip_step step a in (option_map g o, a').
+End ZipWith.
+
+(* the n-ary zip of lists: heads of all lists while every list is non-empty *)
+Section ZipSpec.
+Context {E : Type}.
+Fixpoint heads_tails (ls : list (list E)) : option (list E * list (list E)) :=
+  match ls with
+  | [] => Some ([], [])
+  | l :: r => match l with
+              | [] => None
+              | x :: t => match heads_tails r with
+                          | Some (hs, ts) => Some (x :: hs, t :: ts)
+                          | None => None
+                          end
+              end
+  end.
+Fixpoint zipn (fuel : nat) (ls : list (list E)) : list (list E) :=
+  match fuel with
+  | O => []
+  | S f => match heads_tails ls with
+           | Some (hs, ts) => hs :: zipn f ts
+           | None => []
+           end
+  end.
+End ZipSpec.
+
+(* ---- Repeat::pythonic_slice (after 189da78): a negative bound counts back from the
+   infinitely far end, a missing upper bound is that end; `cap` is the largest width for which
+   try_reserve_exact succeeds ---- *)
+Section RepeatSlice.
+Context {A : Type}.
+Variable cap : Z.
+Inductive rsliced := RList (l : list A) | RSelf.
+Definition repeat_slice (x : A) (lo hi : option Z) : outcome rsliced :=
+  let lo_end := match lo with Some l => l <? 0 | None => false end in
+  let lo' := match lo with Some l => l | None => 0 end in
+  let hi_end := match hi with Some h => h <? 0 | None => true end in
+  let hi' := match hi with Some h => h | None => 0 end in
+  if Bool.eqb lo_end hi_end
+  then let width := Z.max (hi' - lo') 0 in
+       if width <=? cap then Ok (RList (repeat x (Z.to_nat width))) else Err EValue
+  else if lo_end then Ok (RList []) else Ok RSelf.
+End RepeatSlice.
+
+(* ---- lazy_map / lazy_filter with a callback that may raise: the error is yielded once as
+   the stream's last item, after which the adaptor is stopped (self.0 = Err(e); next() of an
+   Err state is None).  Items are results: Ok value | Err class. ---- *)
+Section Erroring.
+Context {St E F : Type}.
+Variable step : St -> option E * St.
+Variable f : E -> outcome F.
+Definition emap_step (a : @adapted St) : option (outcome F) * @adapted St :=
+  match a with
+  | AStopped => (None, AStopped)
+  | AOk s => match step s with
+             | (Some e, s') => match f e with
+                               | Ok y => (Some (Ok y), AOk s')
+                               | o => (Some o, AStopped)
+                               end
+             | (None, _) => (None, AStopped)
+             end
+  end.
+Variable p : E -> outcome bool.
+Fixpoint efilter_loop (fuel : nat) (s : St) : outcome (option (outcome E) * @adapted St) :=
+  match fuel with
+  | O => OutOfFuel
+  | S k => match step s with
+           | (Some e, s') => match p e with
+                             | Ok true => Ok (Some (Ok e), AOk s')
+                             | Ok false => efilter_loop k s'
+                             | Err c => Ok (Some (Err c), AStopped)
+                             | Panic => Panic
+                             | OutOfFuel => OutOfFuel
+                             end
+           | (None, _) => Ok (None, AStopped)
+           end
+  end.
+End Erroring.
+(* collect::<NRes<Vec<_>>>(): the values, or the first error *)
+Fixpoint collect {F} (l : list (outcome F)) : outcome (list F) :=
+  match l with
+  | [] => Ok []
+  | o :: r => y <- o ;; ys <- collect r ;; Ok (y :: ys)
+  end.
